@@ -23,7 +23,14 @@ Open Scope Z_scope.
 
 Inductive tree :=
 | Leaf (id : Z) (wd hd : dim)
-| Node (orient align : Z) (pad : dim) (kids : list tree).   (* orient 0 = HSplit, 1 = VSplit *)
+| Node (orient align : Z) (pad : dim) (kids : list tree)    (* orient 0 = HSplit, 1 = VSplit *)
+| WLeaf (id : Z) (wd : dim) (len : Z)     (* a wrapping leaf: len cells of text, height = ceil(len / width) *)
+| Over (ow oh : option dim) (t : tree).   (* the split t constructed with width= / height= *)
+
+(* what a wrapping leaf reports as its height when it is offered [width]
+   columns: Dimension(preferred=ceil(len / max(1, width))) *)
+Definition wrap_height (len width : Z) : ctor_res :=
+  let w := Z.max 1 width in dimension None None None (Some ((len + w - 1) / w)).
 
 (* what a preferred_* call gives: a Dimension, a divide loop out of fuel,
    or an exception (a Dimension constructor raised) *)
@@ -61,6 +68,9 @@ Fixpoint pw (t : tree) : rep :=
             end
           else rep_of (sum_layout_dimensions (all_children al pad ds))
       end
+  | WLeaf _ wd _ => RDim wd
+  | Over ow _ t' =>                      (* `if self.width is not None: return to_dimension(self.width)` *)
+      match ow with Some d => RDim d | None => pw t' end
   end.
 
 (* [c.preferred_height(s, ..) for s, c in zip(sizes, children)] restricted to
@@ -98,6 +108,9 @@ Fixpoint ph (fuel : nat) (t : tree) (width : Z) : rep :=
             | _ => RErr
             end
         end
+  | WLeaf _ _ len => rep_of (wrap_height len width)
+  | Over _ oh t' =>                      (* `if self.height is not None: return to_dimension(self.height)` *)
+      match oh with Some d => RDim d | None => ph fuel t' width end
   end.
 
 (* ------------------------------------------------------------------ *)
@@ -222,6 +235,8 @@ Fixpoint write (fuel : nat) (done : bool) (t : tree) (x y w h : Z) : list rect +
                 end
             end
         end
+  | WLeaf id _ _ => inl [mkrect id x y w h]
+  | Over _ _ t' => write fuel done t' x y w h     (* write_to_screen does not look at self.width / self.height *)
   end.
 
 (* ------------------------------------------------------------------ *)
@@ -268,9 +283,18 @@ Fixpoint render_fresh2 (fuel : nat) (orient : Z) (done : bool) (pool : list dim)
 Definition sx_rect (r : rect) : sx :=
   L [A (rk r); sx_big (rx r); sx_big (ry r); sx_big (rw r); sx_big (rh r)].
 
-(* tree on the wire: (0 id rawW rawH) | (1 orient align rawPad (kids...)).
+(* tree on the wire: (0 id rawW rawH) | (1 orient align rawPad (kids...)) | (2 id rawW len) a wrapping leaf |
+   (3 ovW ovH split) a split with width= / height= (each () or (rawdim)).
    A raw dimension whose constructor raises makes the case answer that
    error (first in pre-order: padding before children, width before height) *)
+Definition as_ov (s : sx) : option (option dim + ctor_res) :=
+  match as_opt as_rawdim s with
+  | Some None => Some (inl None)
+  | Some (Some (COk d)) => Some (inl (Some d))
+  | Some (Some e) => Some (inr e)
+  | None => None
+  end.
+
 Fixpoint as_tree (s : sx) : option (tree + ctor_res) :=
   match s with
   | L [A 0; A id; rw_; rh_] =>
@@ -303,6 +327,20 @@ Fixpoint as_tree (s : sx) : option (tree + ctor_res) :=
           end
       | Some e => Some (inr e)
       | None => None
+      end
+  | L [A 2; A id; rw_; A len] =>
+      match as_rawdim rw_ with
+      | Some (COk a) => Some (inl (WLeaf id a len))
+      | Some e => Some (inr e)
+      | None => None
+      end
+  | L [A 3; ow; oh; (L (A 1 :: _)) as t'] =>
+      match as_ov ow, as_ov oh with
+      | Some (inl a), Some (inl b) =>
+          match as_tree t' with Some (inl tr) => Some (inl (Over a b tr)) | other => other end
+      | Some (inr e), Some _ => Some (inr e)
+      | Some (inl _), Some (inr e) => Some (inr e)
+      | _, _ => None
       end
   | _ => None
   end.
